@@ -271,10 +271,13 @@ func (c *Conn) OpenUpstream(ctx context.Context, sessionID string, opts ...Upstr
 	upconf.SessionID = sessionID
 
 	var resp *message.UpstreamOpenResponse
+	var outages uint64
 	err := c.send(ctx, func(ctx context.Context) error {
-		// take the current wire connection; the exchange itself must not hold the mutex other calls need
+		// take the current wire connection (and the outage count that goes with it); the exchange itself must not hold
+		// the mutex other calls need
 		c.wireConnMu.Lock()
 		wireConn := c.wireConn
+		outages = c.state.Outages()
 		c.wireConnMu.Unlock()
 		r, err := wireConn.SendUpstreamOpenRequest(ctx, &message.UpstreamOpenRequest{
 			SessionID:      upconf.SessionID,
@@ -325,6 +328,7 @@ func (c *Conn) OpenUpstream(ctx context.Context, sessionID string, opts ...Upstr
 		ServerTime:       resp.ServerTime,
 		idAlias:          resp.AssignedStreamIDAlias,
 		wireConn:         c.wireConn,
+		connOutages:      outages,
 		sequence:         newSequenceNumberGenerator(0),
 		logger:           c.logger,
 
@@ -382,7 +386,11 @@ func (c *Conn) OpenUpstream(ctx context.Context, sessionID string, opts ...Upstr
 					return
 				}
 
-				if err := u.resume(c.wireConn); err != nil {
+				c.wireConnMu.Lock()
+				wireConn := c.wireConn
+				u.connOutages = c.state.Outages()
+				c.wireConnMu.Unlock()
+				if err := u.resume(wireConn); err != nil {
 					u.logger.Errorf(ctx, "failed to resume upstream: %+v", err)
 					return
 				}
@@ -424,8 +432,10 @@ func (c *Conn) OpenDownstream(ctx context.Context, filters []*message.Downstream
 	}
 	alias := c.downstreamIDGenerator.Next()
 
+	var outages uint64
 	err = c.send(ctx, func(ctx context.Context) error {
 		c.wireConnMu.Lock()
+		outages = c.state.Outages()
 		dpsCh, err = c.wireConn.SubscribeDownstreamChunk(ctx, alias, downconf.QoS)
 		c.wireConnMu.Unlock()
 		if err != nil {
@@ -482,6 +492,7 @@ func (c *Conn) OpenDownstream(ctx context.Context, filters []*message.Downstream
 		lastIssuedAckSequenceNumber: 0,
 		ServerTime:                  resp.ServerTime,
 		wireConn:                    c.wireConn,
+		connOutages:                 outages,
 		idAlias:                     alias,
 		dpsCh:                       dpsCh,
 		ackCompCh:                   ackCompCh,
@@ -541,6 +552,9 @@ func (c *Conn) OpenDownstream(ctx context.Context, filters []*message.Downstream
 					return
 				}
 
+				c.wireConnMu.Lock()
+				down.connOutages = c.state.Outages()
+				c.wireConnMu.Unlock()
 				if err := down.resume(c); err != nil {
 					down.logger.Errorf(ctx, "Failed to resume downstream: %+v", err)
 					return
